@@ -60,19 +60,18 @@ type admCase struct {
 	Trap    int       `json:"trap"`    // calls of the middleware registered on the OTHER namespace
 	Sids    []string  `json:"sids"`    // distinct server-side socket ids seen for this case
 
-	Resp     string `json:"resp"`      // "connect" | "connect_error" | "timeout" | "closed"
-	RespNsp  bool   `json:"resp_nsp"`  // response carried the namespace of the request
-	RespSid  bool   `json:"resp_sid"`  // CONNECT payload sid == server-side sid
-	MsgKind  string `json:"msg_kind"`  // "text" | "data" | ""
-	MsgMw    int    `json:"msg_mw"`    // which middleware's rejection the message carries (-1 unknown)
-	MsgCode  int    `json:"msg_code"`  // verdict code encoded in the message (-1 unknown)
-	Extra    int    `json:"extra"`     // further packets for this namespace seen before the post view
-	Post     viewObs `json:"post"`     // server state after the response (and handler) was seen
-	HWaited  bool   `json:"h_waited"`  // handler seen within the wait
-	Probe    bool   `json:"probe"`     // accepted: a broadcast to the socket's own room arrived
-	Final    viewObs `json:"final"`    // server state at the end of the run (before shutdown)
-	FinalEvt int    `json:"final_evt"` // rejected-only connection: EVENT packets received overall
-	Note     string `json:"note,omitempty"`
+	Resp     string  `json:"resp"`      // "connect" | "connect_error" | "timeout" | "closed"
+	RespNsp  bool    `json:"resp_nsp"`  // response carried the namespace of the request
+	RespSid  bool    `json:"resp_sid"`  // CONNECT payload sid == server-side sid
+	MsgKind  string  `json:"msg_kind"`  // "text" | "data" | ""
+	MsgMw    int     `json:"msg_mw"`    // which middleware's rejection the message carries (-1 unknown)
+	MsgCode  int     `json:"msg_code"`  // verdict code encoded in the message (-1 unknown)
+	Post     viewObs `json:"post"`      // server state after the response (and handler) was seen
+	HWaited  bool    `json:"h_waited"`  // handler seen within the wait
+	Probe    bool    `json:"probe"`     // accepted: a broadcast to the socket's own room arrived
+	Final    viewObs `json:"final"`     // server state at the end of the run (before shutdown)
+	FinalEvt int     `json:"final_evt"` // unexpected packets on the connection: CONNECT/CONNECT_ERROR beyond one per attempt, DISCONNECT, ACK; EVENTs on a never-admitted connection
+	Note     string  `json:"note,omitempty"`
 
 	mu      sync.Mutex
 	hch     chan struct{}
@@ -140,19 +139,19 @@ func observe(nsp *sio.Namespace, sock sio.ServerSocket, sid string, mw int, k in
 }
 
 type admRig struct {
-	srv   *sio.Server
-	ts    *httptest.Server
-	nsp   *sio.Namespace
-	name  string
-	k     int
-	mu    sync.Mutex
-	cases map[int]*admCase
-	bySid map[string]*admCase
-	stray []string // things that could not be attributed to a case
+	srv    *sio.Server
+	ts     *httptest.Server
+	nsp    *sio.Namespace
+	name   string
+	k      int
+	mu     sync.Mutex
+	cases  map[int]*admCase
+	bySid  map[string]*admCase
+	stray  []string // things that could not be attributed to a case
 	hstray []string // handler runs for sids no case knows (resolved at the end)
-	hobs  map[string][]viewObs
-	socks map[string]sio.ServerSocket
-	anyh  map[string]int
+	hobs   map[string][]viewObs
+	socks  map[string]sio.ServerSocket
+	anyh   map[string]int
 }
 
 type rejData struct {
@@ -308,6 +307,7 @@ type rawPeer struct {
 	once   sync.Once
 	mu     sync.Mutex
 	events int
+	byType [7]int
 }
 
 func parseSioText(b []byte) (rawPkt, bool) {
@@ -340,11 +340,12 @@ func dialRaw(url string) (*rawPeer, error) {
 					continue
 				}
 				if sp, ok := parseSioText(pk.Data); ok {
+					p.mu.Lock()
+					p.byType[sp.typ]++
 					if sp.typ == 2 {
-						p.mu.Lock()
 						p.events++
-						p.mu.Unlock()
 					}
+					p.mu.Unlock()
 					select {
 					case p.ch <- sp:
 					default:
@@ -648,10 +649,26 @@ func runAdmServer(name string, k int, conc int, rnd *vk.Rand, nextID *int, perCo
 	for _, sp := range peers {
 		sp.p.mu.Lock()
 		ev := sp.p.events
+		bt := sp.p.byType
 		sp.p.mu.Unlock()
+		// exactly one CONNECT / CONNECT_ERROR per answered attempt, nothing else of that kind
+		want0, want4 := 0, 0
 		for _, c := range sp.cases {
+			switch c.Resp {
+			case "connect":
+				want0++
+			case "connect_error":
+				want4++
+			}
+		}
+		extra := (bt[0] - want0) + (bt[4] - want4) + bt[1] + bt[3]
+		if extra < 0 {
+			extra = -extra
+		}
+		for _, c := range sp.cases {
+			c.FinalEvt = extra
 			if !sp.accepted {
-				c.FinalEvt = ev
+				c.FinalEvt += ev
 			}
 		}
 	}
